@@ -21,7 +21,9 @@ type Engine struct {
 	TrueSwitch     map[string]bool // by FuncName
 	TrueSwitchPkgs map[string]bool
 	// Expand: package path prefixes whose functions may be summarised.
-	Expand   []string
+	Expand []string
+	// ExpandFn, when set, additionally allows summarising the functions it accepts.
+	ExpandFn func(*ssa.Function) bool
 	MaxDepth int
 	// Derived: disjunctive facts. In function Func (SSAFuncName), a set that
 	// satisfies any alternative (each a conjunction of globs) also holds the
@@ -147,7 +149,7 @@ func (e *Engine) canExpand(fn *ssa.Function) bool {
 			return true
 		}
 	}
-	return false
+	return e.ExpandFn != nil && e.ExpandFn(fn)
 }
 
 // Analyze runs (or returns the cached) analysis of fn. Anonymous functions
@@ -455,7 +457,18 @@ func (a *FuncAnalysis) loopFacts() map[[2]int][]*Fact {
 func (a *FuncAnalysis) events(ins ssa.Instruction, fs FactSet) {
 	switch ins := ins.(type) {
 	case *ssa.Call:
-		fs.Add(&Fact{Kind: "called", A: []*Node{a.D.D(ins)}})
+		n := a.D.D(ins)
+		fs.Add(&Fact{Kind: "called", A: []*Node{n}})
+		// a helper without results cannot be "ok": what holds at every one of its exits
+		// holds after the call (its effects and calls become the caller's)
+		if callee := ins.Call.StaticCallee(); callee != nil && n.K == "call" && a.depth < a.E.MaxDepth &&
+			callee.Signature.Results().Len() == 0 && callee.Parent() == nil && a.E.canExpand(callee) {
+			sum := a.E.summary(callee, "any", a.depth+1)
+			via := SSAFuncName(callee)
+			for _, k := range sum.Keys() {
+				fs.Add(sum[k].Subst(n.A, via))
+			}
+		}
 	case *ssa.Defer:
 		fs.Add(&Fact{Kind: "deferred", A: []*Node{a.D.call(&ins.Call)}})
 	case *ssa.Go:
@@ -681,12 +694,83 @@ func (a *FuncAnalysis) expandFact(f *Fact, into FactSet) {
 		return
 	}
 	sum := a.E.summary(callee, spec, a.depth+1)
-	if len(sum) == 0 {
-		return
-	}
 	via := SSAFuncName(callee)
 	for _, k := range sum.Keys() {
 		into.Add(sum[k].Subst(n.A, via))
+	}
+	a.deriveThrough(callee, spec, n.A, via, into)
+}
+
+// deriveThrough: a derived disjunction of THIS function also holds after a
+// successful call of a helper when every exit of the helper (of the
+// established class), rebound to the call's arguments, satisfies one of its
+// alternatives. The plain summary cannot carry this: it is the intersection
+// of the exits, and a disjunction lives in their differences. This is what
+// keeps "extract these guards into a helper" from losing an or-fact.
+func (a *FuncAnalysis) deriveThrough(callee *ssa.Function, spec string, args []*Node, via string, into FactSet) {
+	if len(a.derived) == 0 || a.depth >= a.E.MaxDepth {
+		return
+	}
+	key := callee.String() + "|" + spec
+	if a.E.inprog[key] {
+		return
+	}
+	pending := false
+	for _, d := range a.derived {
+		if _, ok := into["or("+d.Name+")"]; !ok {
+			pending = true
+		}
+	}
+	if !pending {
+		return
+	}
+	a.E.inprog[key] = true
+	defer delete(a.E.inprog, key)
+	ca := a.E.analyzeDepth(callee, a.depth+1)
+	exits, err := ca.Exits(spec)
+	if err != nil || len(exits) == 0 || len(exits) > 64 {
+		return
+	}
+	var sets []FactSet
+	for _, ex := range exits {
+		fs := into.Clone() // what the caller already knows also holds
+		for _, f := range ex.Facts {
+			if mentionsLocalOnly(f) {
+				continue
+			}
+			fs.Add(f.Subst(args, via))
+		}
+		sets = append(sets, fs)
+	}
+	for _, d := range a.derived {
+		k := "or(" + d.Name + ")"
+		if _, ok := into[k]; ok {
+			continue
+		}
+		all := true
+		for _, fs := range sets {
+			sat := false
+			for _, alt := range d.Alts {
+				okAlt := true
+				for _, g := range alt {
+					if _, ok := fs.Has(g); !ok {
+						okAlt = false
+						break
+					}
+				}
+				if okAlt {
+					sat = true
+					break
+				}
+			}
+			if !sat {
+				all = false
+				break
+			}
+		}
+		if all {
+			into.Add(&Fact{Kind: "or", A: []*Node{mk("const", d.Name)}, Via: via})
+		}
 	}
 }
 
@@ -1088,7 +1172,7 @@ func (e *Engine) summary(fn *ssa.Function, spec string, depth int) FactSet {
 	e.inprog[key] = true
 	defer delete(e.inprog, key)
 	sig := fn.Signature
-	if sig.Results().Len() == 0 {
+	if sig.Results().Len() == 0 && spec != "any" {
 		return nil
 	}
 	// adapt spec to the signature
